@@ -120,6 +120,32 @@ func buildModel(src []byte, sb *hclsyntax.Body, wb *hclwrite.Body, owner *mItem)
 		_ = whole
 		it := &mItem{isBlock: true, name: blk.Type, labels: append([]string(nil), blk.Labels...), wblock: wblocks[i]}
 		it.oneLine = blk.OpenBraceRange.Start.Line == blk.CloseBraceRange.Start.Line
+		// the same form spread over several lines by newlines inside comments
+		// or inside the item: what counts is that no newline TOKEN separates the
+		// opening brace from the first item
+		if len(blk.Body.Attributes)+len(blk.Body.Blocks) > 0 {
+			first := blk.CloseBraceRange.Start.Byte
+			for _, a := range blk.Body.Attributes {
+				if a.NameRange.Start.Byte < first {
+					first = a.NameRange.Start.Byte
+				}
+			}
+			for _, nb := range blk.Body.Blocks {
+				if nb.TypeRange.Start.Byte < first {
+					first = nb.TypeRange.Start.Byte
+				}
+			}
+			between, _ := hclsyntax.LexConfig(src[blk.OpenBraceRange.End.Byte:first], "gap.hcl", hcl.InitialPos)
+			sawNewline := false
+			for _, t := range between {
+				if t.Type == hclsyntax.TokenNewline || (t.Type == hclsyntax.TokenComment && strings.HasSuffix(string(t.Bytes), "\n")) {
+					sawNewline = true
+				}
+			}
+			if !sawNewline {
+				it.oneLine = true
+			}
+		}
 		if rest := src[blk.OpenBraceRange.End.Byte:]; true {
 			if nl := strings.IndexByte(string(rest), '\n'); nl >= 0 {
 				rest = rest[:nl]
